@@ -156,6 +156,7 @@ static struct pqueue(struct emit_blk *) emit_q;
 static struct pqueue(struct out_blk *) reord_q;
 static struct deque(struct head_blk) order_q;
 static struct pqueue(struct unord_blk *) unord_q;
+static unsigned unord_cap;      /* capacity of unord_q, set by init() */
 static bool parse_token;
 static bool parsing_done;
 static struct pqueue(struct detached_bitstream *) scan_q;
@@ -872,6 +873,17 @@ do_scan(void)
            32ul + 32ul * bs->offset - bs->live));
     work_units++;
   }
+  else if (size(unord_q) >= unord_cap) {
+    /* No room to record this candidate.  The capacity of unord_q covers one
+       block per work unit and output slot that speculation may use, but the
+       block of a retrieve job that was dropped because the master overtook
+       it stays queued, without any resource behind it, until the parser
+       reaches the next block header.  Speculation is optional (the parser
+       finds every block on its own), so just pass over the candidate. */
+    Trace(("Scanner ignored a match at {%lu}, too many unordered blocks",
+           32ul + 32ul * bs->offset - bs->live));
+    work_units++;
+  }
   else {
     struct unord_blk *ub;
     struct retr_blk *rb;
@@ -973,8 +985,9 @@ init(void)
   pqueue_init(scan_q, in_slots);
   pqueue_init(retr_q, work_units);
   pqueue_init(emit_q, work_units);
-  pqueue_init(unord_q, (work_units + out_slots > UNORD_THRESH ?
-                        work_units + out_slots - UNORD_THRESH : 0));
+  unord_cap = (work_units + out_slots > UNORD_THRESH ?
+               work_units + out_slots - UNORD_THRESH : 0);
+  pqueue_init(unord_q, unord_cap);
   deque_init(order_q, work_units + out_slots);
   pqueue_init(reord_q, out_slots);
 #ifdef KJN_LBZIP2_VERIF
